@@ -16,6 +16,15 @@ From Verif Require Import Lib.Base.
 
 Inductive err : Type :=
 | Root (id : N) (msg : bytes)
+  (* a root that has an Unwrap method but no Cause method: *net.OpError, *os.PathError, what
+     fmt.Errorf("%w") and errors.Join return, a custom wrapper.  [kind]: what Unwrap yields --
+     0 nil, 1 the error itself, 2 another error ([inner]), 3 a list (Unwrap() []error).
+     errors.Cause follows the causer interface only, so all of this is irrelevant to it: the
+     transport's own error is the root cause, not something dug out of it. *)
+| RootU (id : N) (msg : bytes) (kind : N) (inner : option err)
+  (* a foreign error type that implements the documented causer interface:
+     Cause() error returns [inner]; errors.Cause goes on into it *)
+| RootC (id : N) (msg : bytes) (inner : err)
 | WithMsg (msg : bytes) (e : err)
 | WithStk (e : err).
 
@@ -27,6 +36,8 @@ Definition msg_sep : bytes := [58; 32]%N.
 Fixpoint cause (e : err) : err :=
   match e with
   | Root _ _ => e
+  | RootU _ _ _ _ => e
+  | RootC _ _ inner => cause inner
   | WithMsg _ e' => cause e'
   | WithStk e' => cause e'
   end.
@@ -35,6 +46,8 @@ Fixpoint cause (e : err) : err :=
 Fixpoint message (e : err) : bytes :=
   match e with
   | Root _ m => m
+  | RootU _ m _ _ => m
+  | RootC _ m _ => m
   | WithMsg m e' => m ++ msg_sep ++ message e'
   | WithStk e' => message e'
   end.
@@ -43,6 +56,8 @@ Fixpoint message (e : err) : bytes :=
 Fixpoint chain (e : err) : list bytes :=
   match e with
   | Root _ m => [m]
+  | RootU _ m _ _ => [m]
+  | RootC _ m _ => [m]
   | WithMsg m e' => m :: chain e'
   | WithStk e' => chain e'
   end.
@@ -56,13 +71,17 @@ Fixpoint join (sep : bytes) (l : list bytes) : bytes :=
   end.
 
 Definition root_id (e : err) : N :=
-  match cause e with Root id _ => id | _ => 0%N end.
+  match cause e with Root id _ => id | RootU id _ _ _ => id | _ => 0%N end.
 
-Definition is_root (e : err) : bool := match e with Root _ _ => true | _ => false end.
+(* an error without a Cause method (whatever Unwrap it may have) *)
+Definition is_root (e : err) : bool := match e with Root _ _ => true | RootU _ _ _ _ => true | _ => false end.
 
 (* number of wrapping layers *)
 Fixpoint depth (e : err) : nat :=
-  match e with Root _ _ => O | WithMsg _ e' => S (depth e') | WithStk e' => S (depth e') end.
+  match e with
+  | Root _ _ => O | RootU _ _ _ _ => O | RootC _ _ e' => S (depth e')
+  | WithMsg _ e' => S (depth e') | WithStk e' => S (depth e')
+  end.
 
 (* ---- identities of the transport errors used by the I/O models (Lib/IO.v) ----
    These are the [id]s of Root values; the harness numbers its sentinel table the same way. *)
@@ -70,4 +89,5 @@ Definition id_EOF : N := 0%N.                (* io.EOF *)
 Definition id_UnexpectedEOF : N := 1%N.      (* io.ErrUnexpectedEOF *)
 Definition id_ClosedPipe : N := 2%N.         (* io.ErrClosedPipe *)
 Definition id_ShortWrite : N := 3%N.         (* io.ErrShortWrite *)
-(* ids >= 4: harness sentinels (custom error types) *)
+(* ids >= 4: harness sentinels: 4 a custom error type; 5.. wrapper-typed transport errors
+   ( *net.OpError, * os.PathError, a custom type with Unwrap, fmt.Errorf("%w"), Unwrap() = nil) *)
